@@ -521,6 +521,128 @@ func c07(r *mon.Run) {
 				t.Nontrivial("d3:" + gen.SpellTight(tree) + ref.Canon(doc))
 			}})
 	}
+	// empty lists and objects from every construct that can produce one, compared with each other and with the literals (an empty
+	// container is an empty container whatever built it), and as operands of !, ||, && and filters (all false-like)
+	{
+		f, lit, raw, cur, fn, ch := gen.Field, gen.LitJSON, gen.Raw, gen.Current, gen.Func, gen.Chain
+		emptyDoc := docs.J(`{"e":{},"ea":[],"a":[1,2],"z":null,"o":{"k":1},"s":""}`)
+		esrc := []func() *gen.Expr{
+			func() *gen.Expr { return lit("[]") }, func() *gen.Expr { return f("ea") }, func() *gen.Expr { return fn("values", f("e")) }, func() *gen.Expr { return fn("keys", f("e")) }, func() *gen.Expr { return ch(f("e"), gen.StStar()) },
+			func() *gen.Expr { return ch(f("a"), gen.StFilter(lit("false"))) }, func() *gen.Expr { return ch(f("a"), gen.StSliceS("", "0", "")) }, func() *gen.Expr { return ch(f("ea"), gen.StListStar()) }, func() *gen.Expr { return ch(f("ea"), gen.StFlatten()) },
+			func() *gen.Expr { return fn("to_array", f("ea")) }, func() *gen.Expr { return fn("map", gen.ExpRef(cur()), f("ea")) }, func() *gen.Expr { return fn("sort", f("ea")) }, func() *gen.Expr { return fn("reverse", f("ea")) },
+			func() *gen.Expr { return fn("sort_by", f("ea"), gen.ExpRef(cur())) }, func() *gen.Expr { return ch(f("a"), gen.StSliceS("5", "", "")) }, func() *gen.Expr { return ch(gen.MultiList(f("ea")), gen.StIndex(0)) },
+			func() *gen.Expr { return ch(f("a"), gen.StFilter(gen.Cmp(">", cur(), lit("5")))) }, func() *gen.Expr { return fn("not_null", f("z"), f("ea")) }, func() *gen.Expr { return ch(f("a"), gen.StListStar(), gen.StField("missing")) },
+			func() *gen.Expr { return ch(f("o"), gen.StStar(), gen.StField("missing")) }, func() *gen.Expr { return gen.Pipe(fn("merge", f("e"), f("e")), fn("values", cur())) }, func() *gen.Expr { return ch(f("a"), gen.StSliceS("", "", "-1"), gen.StSliceS("", "0", "")) },
+			func() *gen.Expr { return ch(fn("to_array", f("z")), gen.StSliceS("", "0", "")) }, func() *gen.Expr { return ch(gen.MultiList(lit("[]")), gen.StIndex(0)) }, func() *gen.Expr { return gen.And(f("a"), f("ea")) },
+			func() *gen.Expr { return lit("{}") }, func() *gen.Expr { return f("e") }, func() *gen.Expr { return fn("merge", f("e")) }, func() *gen.Expr { return fn("merge", f("e"), f("e")) },
+			func() *gen.Expr { return ch(gen.MultiHash(keyA("k"), []*gen.Expr{f("e")}), gen.StField("k")) }, func() *gen.Expr { return fn("not_null", f("z"), f("e")) }, func() *gen.Expr { return ch(gen.MultiList(f("e")), gen.StIndex(0)) },
+			func() *gen.Expr {
+				return ch(fn("values", gen.MultiHash(keyA("k"), []*gen.Expr{f("e")})), gen.StIndex(0))
+			}, func() *gen.Expr { return ch(fn("to_array", f("e")), gen.StIndex(0)) }, func() *gen.Expr { return gen.And(f("o"), f("e")) },
+		}
+		NE := len(esrc)
+		ws = append(ws, mon.Workload{Name: "empty-containers-from-every-source", N: NE*NE*2 + NE*6, Batch: 500,
+			Do: func(i int, t *mon.Tally) {
+				var tree *gen.Expr
+				if i < NE*NE*2 {
+					tree = gen.Cmp([]string{"==", "!="}[i%2], esrc[i/2/NE](), esrc[i/2%NE]())
+				} else {
+					k := i - NE*NE*2
+					src := esrc[k/6]
+					switch k % 6 {
+					case 0:
+						tree = gen.Not(src())
+					case 1:
+						tree = gen.Or(src(), raw("d"))
+					case 2:
+						tree = gen.And(src(), raw("d"))
+					case 3:
+						tree = ch(f("a"), gen.StFilter(src()))
+					case 4:
+						tree = gen.MultiList(gen.Cmp("==", src(), lit("[]")), gen.Cmp("==", src(), lit("{}")), gen.Cmp("==", src(), lit("null")), gen.Cmp("==", src(), f("ea")), gen.Cmp("==", src(), f("e")))
+					default:
+						tree = gen.MultiList(gen.Not(src()), fn("type", src()), fn("length", src()))
+					}
+				}
+				cx := &caseCtx{r, t, "empty-containers-from-every-source", i}
+				cx.runBoth(tree, gen.Spell(tree), emptyDoc)
+				t.NontrivialDistinct(1)
+			}})
+		// filters over long lists of scalars that print alike and are not alike (1 and "1", true and "true", null and "null", 0 and
+		// "0" and "", [] and "[]"): each element is judged as what it is, wherever it stands and whatever stood before it
+		look := []interface{}{float64(1), "1", true, "true", false, "false", nil, "null", float64(0), "0", "", "[]", []interface{}{}, "{}", map[string]interface{}{}, float64(-1), "-1", "1.0", float64(2), "2", "a", " ", "0.0", "1e0"}
+		eq := func(x *gen.Expr) *gen.Expr { return gen.Cmp("==", cur(), x) }
+		lconds := []func() *gen.Expr{
+			func() *gen.Expr { return eq(lit("1")) }, func() *gen.Expr { return eq(raw("1")) }, func() *gen.Expr { return gen.Not(cur()) }, func() *gen.Expr { return cur() }, func() *gen.Expr { return eq(lit("true")) }, func() *gen.Expr { return eq(raw("true")) },
+			func() *gen.Expr { return eq(lit("null")) }, func() *gen.Expr { return eq(raw("null")) }, func() *gen.Expr { return gen.Cmp("<", cur(), lit("2")) }, func() *gen.Expr { return gen.Cmp(">=", cur(), lit("0")) },
+			func() *gen.Expr { return gen.Cmp("==", fn("type", cur()), raw("string")) }, func() *gen.Expr { return gen.Cmp("!=", cur(), lit("0")) }, func() *gen.Expr { return eq(lit("false")) }, func() *gen.Expr { return eq(lit("[]")) }, func() *gen.Expr { return eq(raw("[]")) },
+			func() *gen.Expr { return eq(lit("0")) }, func() *gen.Expr { return eq(raw("")) }, func() *gen.Expr { return gen.Not(gen.Paren(eq(lit("1")))) }, func() *gen.Expr { return gen.And(cur(), gen.Cmp("!=", cur(), raw("1"))) },
+			func() *gen.Expr { return gen.Or(eq(lit("1")), eq(raw("true"))) }, func() *gen.Expr { return gen.Cmp("!=", cur(), cur()) }, func() *gen.Expr { return gen.Not(gen.Paren(gen.Cmp("<", cur(), lit("1")))) },
+			func() *gen.Expr { return gen.And(gen.Cmp(">", cur(), lit("0")), gen.Cmp("<", cur(), lit("2"))) }, func() *gen.Expr { return eq(lit("{}")) },
+		}
+		llens := []int{3, 24, 31, 32, 33, 40, 64, 65, 100, 257}
+		ws = append(ws, mon.Workload{Name: "filters-over-long-lists-of-look-alike-scalars", N: len(lconds) * len(llens) * 4 * 4, Batch: 100,
+			Do: func(i int, t *mon.Tally) {
+				ord, form := i%4, i/4%4
+				L := llens[i/16%len(llens)]
+				cond := lconds[i/16/len(llens)]
+				arr := make([]interface{}, L)
+				for k := range arr {
+					switch ord {
+					case 0:
+						arr[k] = look[k%len(look)]
+					case 1:
+						arr[k] = look[(len(look) - 1 - k%len(look))]
+					case 2:
+						arr[k] = look[(k*7+3)%len(look)]
+					default:
+						arr[k] = look[(k/2*2+1-k%2)%len(look)] // every pair swapped: the string before its look-alike
+					}
+				}
+				doc := map[string]interface{}{"a": arr}
+				var tree *gen.Expr
+				switch form {
+				case 0:
+					tree = ch(f("a"), gen.StFilter(cond()))
+				case 1:
+					tree = fn("length", ch(f("a"), gen.StFilter(cond())))
+				case 2:
+					tree = gen.Pipe(ch(f("a"), gen.StFilter(cond())), ch(nil, gen.StIndex(0)))
+				default:
+					tree = gen.Pipe(ch(f("a"), gen.StListStar()), ch(nil, gen.StFilter(cond())))
+				}
+				cx := &caseCtx{r, t, "filters-over-long-lists-of-look-alike-scalars", i}
+				cx.runBoth(tree, gen.SpellTight(tree), doc)
+				t.NontrivialDistinct(1)
+			}})
+		// members that are CALLED true, false and null, present and holding values: written bare they are member names everywhere,
+		// also as a whole comparator operand inside a filter
+		kwDoc := docs.J(`{"svc":[{"name":"a","enabled":true,"true":"yes","false":1,"null":0},{"name":"b","enabled":false,"true":true,"false":false,"null":null},{"name":"c","enabled":"yes","true":"yes","false":"yes"},{"name":"d","enabled":1,"true":1,"null":1}],"true":5,"false":[1],"null":"n","v":5}`)
+		kw := func(n string) *gen.Expr { return &gen.Expr{K: gen.KField, Name: n} } // written bare, without quotes
+		en := func() *gen.Expr { return f("enabled") }
+		names := func(c *gen.Expr) *gen.Expr { return ch(f("svc"), gen.StFilter(c), gen.StField("name")) }
+		var kwTrees []*gen.Expr
+		for _, k := range []string{"true", "false", "null"} {
+			for _, op := range []string{"==", "!=", "<", ">="} {
+				kwTrees = append(kwTrees, names(gen.Cmp(op, en(), kw(k))), names(gen.Cmp(op, kw(k), en())), names(gen.Cmp(op, kw(k), lit(k))), gen.Cmp(op, f("v"), kw(k)), names(gen.Cmp(op, gen.Paren(kw(k)), en())),
+					names(gen.And(gen.Cmp(op, en(), kw(k)), kw("true"))), names(gen.Or(gen.Cmp(op, en(), kw(k)), kw("null"))), gen.Pipe(ch(f("svc"), gen.StFilter(gen.Cmp(op, en(), kw(k)))), ch(nil, gen.StIndex(0), gen.StField("name"))),
+					ch(f("svc"), gen.StListStar(), gen.StMultiList(gen.Cmp(op, kw(k), en()), kw(k))), fn("map", gen.ExpRef(gen.Cmp(op, kw(k), en())), f("svc")))
+			}
+			kwTrees = append(kwTrees, names(kw(k)), names(gen.Not(kw(k))), kw(k), gen.Not(kw(k)), gen.Or(kw(k), raw("d")), gen.And(kw(k), raw("t")), gen.MultiList(kw("true"), kw("false"), kw("null")),
+				ch(fn("sort_by", ch(f("svc"), gen.StFilter(gen.Cmp(">=", kw(k), lit("0")))), gen.ExpRef(kw(k))), gen.StListStar(), gen.StField("name")), gen.MultiHash([]gen.Key{{Name: k}}, []*gen.Expr{kw(k)}), names(gen.Cmp("==", ch(cur(), gen.Step{K: gen.SField, Name: k}), en())))
+		}
+		ws = append(ws, mon.Workload{Name: "members-called-true-false-null-in-conditions", N: len(kwTrees) * 2,
+			Do: func(i int, t *mon.Tally) {
+				tree := kwTrees[i/2]
+				expr := gen.Spell(tree)
+				if i%2 == 1 {
+					expr = gen.SpellTight(tree)
+				}
+				cx := &caseCtx{r, t, "members-called-true-false-null-in-conditions", i}
+				cx.runBoth(tree, expr, kwDoc)
+				t.NontrivialDistinct(1)
+			}})
+	}
 	r.Exec(ws...)
 }
 
